@@ -318,11 +318,11 @@ def obligations(tier, seed):
         shapes.append(("field", "field", "field", "file"))
     for framing in (["CRLF"] if quick else ["CRLF", "LF", "CR"]):
         for shape in shapes:
-            for n in ([0, 2, 4] if quick else [0, 1, 2, 3, 4, 6]):
-                for bs in ([3, 16, 0] if quick else [1, 2, 3, 5, 8, 13, 20, 0]):
+            for n in ([0, 2, 4] if quick else [0, 1, 3, 6]):
+                for bs in ([3, 16, 0] if quick else [1, 3, 8, 20, 0]):
                     if quick and bs == 3 and n > 2:
                         continue
-                    for use_M, use_P in ([(True, True)] if quick else [(True, True), (True, False), (False, True)]):
+                    for use_M, use_P in ([(True, True)] if quick else ([(True, True), (True, False), (False, True)] if framing == "CRLF" else [(True, True)])):
                         out.append({
                             "name": f"parser_limits[{framing},{'+'.join(shape)},n={n},bs={bs},M={use_M},P={use_P}]",
                             "body": "body_parser_limits",
@@ -341,10 +341,10 @@ def obligations(tier, seed):
                 })
     for framing in ["CRLF"] if quick else ["CRLF", "LF", "CR"]:
         for nparts in (1, 2, 3):
-            for n in ([0, 3] if quick else [0, 1, 2, 3, 4]):
+            for n in ([0, 3] if quick else [0, 2, 4]):
                 K = NL[framing]
                 total = len(make_body(K, b"b", [("field", b"x" * n)] + [("field", b"q")] * (nparts - 1)))
-                cuts = range(0, total + 1, 4 if quick else 1)
+                cuts = range(0, total + 1, 4 if quick else (1 if framing == "CRLF" else 3))
                 for cut in cuts:
                     out.append({
                         "name": f"decoder_limits[{framing},parts={nparts},n={n},cut={cut}]",
